@@ -98,22 +98,48 @@ def intToDec (d : DecTy) (v : Int) : Option Int :=
   if !st.inRange val then none
   else if validPrec val d.prec then some val else none
 
-/-- `DecimalToDecimal::cast`: convert to the target primitive, then up-scale with
-`checked_mul` or down-scale with `(v ± 10^k/2) / 10^k` (truncating division). No check of the
-target precision is made at the pinned commit. -/
-def rescale (src dst : DecTy) (v : Int) : Option Int :=
-  let st := dst.storage
-  if !st.inRange v then none else
-  let diff := src.scale - dst.scale
+/-- `v ± rounding_addition` of the down-scaling branch (`rounding_addition = amt / 2`). -/
+def roundAdj (v amt : Int) : Int :=
+  if v ≥ 0 then v + Int.tdiv amt 2 else v - Int.tdiv amt 2
+
+/-- The scaling step of `DecimalToDecimal::cast` in the target primitive `st`:
+up-scale with `checked_mul`, or down-scale with `(v ± 10^k/2) / 10^k` (truncating division). -/
+def rescaleCore (st : IntTy) (diff : Int) (v : Int) : Option Int :=
   if diff < 0 then
     let r := v * (10 ^ (-diff).toNat : Nat)
     if st.inRange r then some r else none
   else if diff > 0 then
     let amt : Int := (10 ^ diff.toNat : Nat)
-    let half := Int.tdiv amt 2
-    let adj := if v ≥ 0 then v + half else v - half
-    if st.inRange adj then some (Int.tdiv adj amt) else none
+    if st.inRange (roundAdj v amt) then some (Int.tdiv (roundAdj v amt) amt) else none
   else some v
+
+/-- `DecimalToDecimal::{bind, cast}`: the scale factor `10^|diff|` must fit the target primitive
+(`checked_pow`, bind-time error), the value is converted to the target primitive, scaled, and
+validated against the target precision (`validate_precision`, added by the F5 fix). -/
+def rescale (src dst : DecTy) (v : Int) : Option Int :=
+  if !dst.storage.inRange ((10 ^ (src.scale - dst.scale).natAbs : Nat) : Int) then none
+  else if !dst.storage.inRange v then none
+  else match rescaleCore dst.storage (src.scale - dst.scale) v with
+    | some r => if validPrec r dst.prec then some r else none
+    | none => none
+
+/-- Inversion lemma for `rescale`. -/
+theorem rescale_some {src dst : DecTy} {v r : Int} (h : rescale src dst v = some r) :
+    rescaleCore dst.storage (src.scale - dst.scale) v = some r ∧ validPrec r dst.prec = true := by
+  unfold rescale at h
+  split at h
+  · cases h
+  · split at h
+    · cases h
+    · split at h
+      · rename_i r' hr
+        split at h
+        · rename_i hp
+          simp only [Option.some.injEq] at h
+          subst h
+          exact ⟨hr, hp⟩
+        · cases h
+      · cases h
 
 def metaOf (bits : Nat) : NumTy → Option (Nat × Int)
   | .dec d => if d.bits = bits then some (d.prec, d.scale) else none
